@@ -15,7 +15,20 @@ import (
 
 	"github.com/hashicorp/hcl/v2"
 	"github.com/zclconf/go-cty/cty"
+	"github.com/zclconf/go-cty/cty/function"
 )
+
+// id(args...) returns its first argument (or "none")
+var verifIDFunc = function.New(&function.Spec{
+	VarParam: &function.Parameter{Name: "x", Type: cty.DynamicPseudoType, AllowUnknown: true, AllowDynamicType: true, AllowNull: true},
+	Type:     function.StaticReturnType(cty.DynamicPseudoType),
+	Impl: func(args []cty.Value, rt cty.Type) (cty.Value, error) {
+		if len(args) == 0 {
+			return cty.StringVal("none"), nil
+		}
+		return args[0], nil
+	},
+})
 
 func verifMarkExprs() []string {
 	atoms := []string{"a", "b", "c", "true", "false", "1", "null"}
@@ -39,7 +52,7 @@ func verifMarkExprs() []string {
 		"l[*]", "l[*].x", "o[*].x", "o.*.x", "[a, b][*]", "{x = a}[*].x",
 		"!a", "!(a && b)", "(a || b) && c", "a ? (b || c) : (b && c)",
 		"[for v in l : v]", "{for k, v in o : k => v}", "[for v in l : v if a]",
-		"l[0]", "o.x", "o[\"x\"]", "u.x", "u[\"x\"]", "ul[0]", "%{ for x in ul }${x}%{ endfor }", "a%{ for x in ul }${x}%{ endfor }b", "%{ for x in l }${x.x}%{ endfor }", "{(us) = 1}", "{\"${us}\" = a}", "{a = 1, (us) = 2}", "[for x in dy : x]", "{for k, x in dy : k => x}", "[for x in ul : x]", "{for k, x in l : k => x.x}", "[for x in l : x.x if a]", "\"p${us}\"", "\"${us}${a}\"", "us == \"k\"", "\"${a}\"", "\"x${a}y${b}\"", "%{ if a }yes%{ else }no%{ endif }",
+		"l[0]", "o.x", "o[\"x\"]", "u.x", "u[\"x\"]", "ul[0]", "%{ for x in ul }${x}%{ endfor }", "a%{ for x in ul }${x}%{ endfor }b", "%{ for x in l }${x.x}%{ endfor }", "id(ul...)", "id(dy...)", "id(l...)", "id(us)", "{(us) = 1}", "{\"${us}\" = a}", "{a = 1, (us) = 2}", "[for x in dy : x]", "{for k, x in dy : k => x}", "[for x in ul : x]", "{for k, x in l : k => x.x}", "[for x in l : x.x if a]", "\"p${us}\"", "\"${us}${a}\"", "us == \"k\"", "\"${a}\"", "\"x${a}y${b}\"", "%{ if a }yes%{ else }no%{ endif }",
 	)
 	return out
 }
@@ -99,7 +112,7 @@ func TestVerifReplayMarks(t *testing.T) {
 					} else {
 						vars[name] = content.Mark("secret")
 					}
-					v, d := expr.Value(&hcl.EvalContext{Variables: vars})
+					v, d := expr.Value(&hcl.EvalContext{Variables: vars, Functions: map[string]function.Function{"id": verifIDFunc}})
 					return v, !d.HasErrors()
 				}
 				r1, ok1 := eval(base[name])
